@@ -172,7 +172,7 @@ func (p *c14pkg) wrapperTypes() []string {
 	return out
 }
 
-func q(s string) string { return strconv.Quote(s) }
+func c14q(s string) string { return strconv.Quote(s) }
 
 func leanBool(b bool) string {
 	if b {
@@ -184,7 +184,7 @@ func leanBool(b bool) string {
 func leanStrs(l []string) string {
 	qs := make([]string, len(l))
 	for i, s := range l {
-		qs[i] = q(s)
+		qs[i] = c14q(s)
 	}
 	return "[" + strings.Join(qs, ", ") + "]"
 }
@@ -282,7 +282,7 @@ func extractWrapperMethods(repo string) (string, error) {
 	for _, ty := range p.wrapperTypes() {
 		st := p.structs[ty]
 		if st == nil {
-			rows = append(rows, ".unrecognised "+q(p.site(p.typeAt[ty])))
+			rows = append(rows, ".unrecognised "+c14q(p.site(p.typeAt[ty])))
 			continue
 		}
 		fieldType := map[string]string{}
@@ -295,17 +295,17 @@ func extractWrapperMethods(repo string) (string, error) {
 				}
 				name = strings.TrimPrefix(name, "*")
 				fieldType[name] = t
-				rows = append(rows, fmt.Sprintf(".field %s %s %s true", q(ty), q(name), q(t)))
+				rows = append(rows, fmt.Sprintf(".field %s %s %s true", c14q(ty), c14q(name), c14q(t)))
 				continue
 			}
 			for _, n := range f.Names {
 				fieldType[n.Name] = t
-				rows = append(rows, fmt.Sprintf(".field %s %s %s false", q(ty), q(n.Name), q(t)))
+				rows = append(rows, fmt.Sprintf(".field %s %s %s false", c14q(ty), c14q(n.Name), c14q(t)))
 			}
 		}
 		for _, m := range p.methods[ty] {
 			_, ptr := m.Recv.List[0].Type.(*ast.StarExpr)
-			rows = append(rows, fmt.Sprintf(".method %s %s %s %s", q(ty), q(m.Name.Name), leanBool(ast.IsExported(m.Name.Name)), leanBool(ptr)))
+			rows = append(rows, fmt.Sprintf(".method %s %s %s %s", c14q(ty), c14q(m.Name.Name), leanBool(ast.IsExported(m.Name.Name)), leanBool(ptr)))
 			rn := c14RecvName(m)
 			if rn == "" || rn == "_" {
 				if m.Body != nil && len(m.Body.List) > 0 {
@@ -336,7 +336,7 @@ func extractWrapperMethods(repo string) (string, error) {
 					if sel, ok := x.Fun.(*ast.SelectorExpr); ok {
 						if id, ok := sel.X.(*ast.Ident); ok {
 							if f, ok := alias[id.Name]; ok {
-								rows = append(rows, fmt.Sprintf(".pass %s %s %s %s", q(ty), q(m.Name.Name), q(f), q(sel.Sel.Name)))
+								rows = append(rows, fmt.Sprintf(".pass %s %s %s %s", c14q(ty), c14q(m.Name.Name), c14q(f), c14q(sel.Sel.Name)))
 							}
 						}
 					}
@@ -348,7 +348,7 @@ func extractWrapperMethods(repo string) (string, error) {
 								return
 							}
 						}
-						rows = append(rows, fmt.Sprintf(".escape %s %s %s", q(ty), q(m.Name.Name), q(p.site(x.Pos()))))
+						rows = append(rows, fmt.Sprintf(".escape %s %s %s", c14q(ty), c14q(m.Name.Name), c14q(p.site(x.Pos()))))
 					}
 				case *ast.SelectorExpr:
 					id, ok := x.X.(*ast.Ident)
@@ -358,27 +358,27 @@ func extractWrapperMethods(repo string) (string, error) {
 					f := x.Sel.Name
 					if _, isField := fieldType[f]; !isField {
 						if p.hasMethod(ty, f) {
-							rows = append(rows, fmt.Sprintf(".self %s %s %s", q(ty), q(m.Name.Name), q(f)))
+							rows = append(rows, fmt.Sprintf(".self %s %s %s", c14q(ty), c14q(m.Name.Name), c14q(f)))
 						} else {
-							rows = append(rows, ".unrecognised "+q(p.site(x.Pos())))
+							rows = append(rows, ".unrecognised "+c14q(p.site(x.Pos())))
 						}
 						return
 					}
 					use := selUse(x, parents)
 					switch {
 					case strings.HasPrefix(use, "method:"):
-						rows = append(rows, fmt.Sprintf(".pass %s %s %s %s", q(ty), q(m.Name.Name), q(f), q(strings.TrimPrefix(use, "method:"))))
+						rows = append(rows, fmt.Sprintf(".pass %s %s %s %s", c14q(ty), c14q(m.Name.Name), c14q(f), c14q(strings.TrimPrefix(use, "method:"))))
 					case strings.HasPrefix(use, "assert:"):
-						rows = append(rows, fmt.Sprintf(".assert %s %s %s %s", q(ty), q(m.Name.Name), q(f), q(strings.TrimPrefix(use, "assert:"))))
+						rows = append(rows, fmt.Sprintf(".assert %s %s %s %s", c14q(ty), c14q(m.Name.Name), c14q(f), c14q(strings.TrimPrefix(use, "assert:"))))
 					case use == "write":
-						rows = append(rows, fmt.Sprintf(".write %s %s %s", q(ty), q(m.Name.Name), q(f)))
+						rows = append(rows, fmt.Sprintf(".write %s %s %s", c14q(ty), c14q(m.Name.Name), c14q(f)))
 					case use == "addr":
-						rows = append(rows, fmt.Sprintf(".addr %s %s %s", q(ty), q(m.Name.Name), q(f)))
+						rows = append(rows, fmt.Sprintf(".addr %s %s %s", c14q(ty), c14q(m.Name.Name), c14q(f)))
 					case use == "call":
-						rows = append(rows, fmt.Sprintf(".pass %s %s %s %s", q(ty), q(m.Name.Name), q(f), q("()")))
+						rows = append(rows, fmt.Sprintf(".pass %s %s %s %s", c14q(ty), c14q(m.Name.Name), c14q(f), c14q("()")))
 					default:
 						if isWriterType(fieldType[f]) {
-							rows = append(rows, fmt.Sprintf(".escape %s %s %s", q(ty), q(m.Name.Name), q(p.site(x.Pos()))))
+							rows = append(rows, fmt.Sprintf(".escape %s %s %s", c14q(ty), c14q(m.Name.Name), c14q(p.site(x.Pos()))))
 						}
 					}
 				}
@@ -426,7 +426,7 @@ func extractWrapperMethods(repo string) (string, error) {
 				for _, a := range call.Args {
 					targets = append(targets, types.ExprString(a))
 				}
-				rows = append(rows, fmt.Sprintf(".tee %s %s %s", q(bound[id.Name]), q(sel.Sel.Name), leanStrs(targets)))
+				rows = append(rows, fmt.Sprintf(".tee %s %s %s", c14q(bound[id.Name]), c14q(sel.Sel.Name), leanStrs(targets)))
 				return true
 			})
 		}
@@ -472,7 +472,7 @@ func extractValidatorConfig(repo string) (string, error) {
 		return "", err
 	}
 	var rows []string
-	unrec := func(pos token.Pos) { rows = append(rows, ".unrecognised "+q(p.site(pos))) }
+	unrec := func(pos token.Pos) { rows = append(rows, ".unrecognised "+c14q(p.site(pos))) }
 	// constants of the block that declares ErrCodeOK
 	for _, f := range p.files {
 		for _, d := range f.Decls {
@@ -504,13 +504,13 @@ func extractValidatorConfig(repo string) (string, error) {
 						unrec(vs.Pos())
 						continue
 					}
-					rows = append(rows, fmt.Sprintf(".const %s %d", q(vs.Names[0].Name), n))
+					rows = append(rows, fmt.Sprintf(".const %s %d", c14q(vs.Names[0].Name), n))
 				case *ast.Ident:
 					if v.Name != "iota" {
 						unrec(vs.Pos())
 						continue
 					}
-					rows = append(rows, fmt.Sprintf(".const %s %d", q(vs.Names[0].Name), i))
+					rows = append(rows, fmt.Sprintf(".const %s %d", c14q(vs.Names[0].Name), i))
 				default:
 					unrec(vs.Pos())
 				}
@@ -549,10 +549,10 @@ func extractValidatorConfig(repo string) (string, error) {
 			}
 			txt, _ := strconv.Unquote(lit.Value)
 			if c.List == nil {
-				rows = append(rows, fmt.Sprintf(".text %s %s", q("default"), q(txt)))
+				rows = append(rows, fmt.Sprintf(".text %s %s", c14q("default"), c14q(txt)))
 			}
 			for _, e := range c.List {
-				rows = append(rows, fmt.Sprintf(".text %s %s", q(types.ExprString(e)), q(txt)))
+				rows = append(rows, fmt.Sprintf(".text %s %s", c14q(types.ExprString(e)), c14q(txt)))
 			}
 		}
 	}
@@ -593,7 +593,7 @@ func extractValidatorConfig(repo string) (string, error) {
 			if id, isX := sel.X.(*ast.Ident); !isX || id.Name != v {
 				return
 			}
-			rows = append(rows, fmt.Sprintf(".option %s %s", q(name), q(sel.Sel.Name)))
+			rows = append(rows, fmt.Sprintf(".option %s %s", c14q(name), c14q(sel.Sel.Name)))
 			ok = true
 		}()
 		if !ok {
@@ -602,7 +602,7 @@ func extractValidatorConfig(repo string) (string, error) {
 	}
 	// NewValidator
 	if fd := p.funcs["NewValidator"]; fd == nil || fd.Body == nil {
-		rows = append(rows, ".unrecognised "+q("openapi3filter: NewValidator not found"))
+		rows = append(rows, ".unrecognised "+c14q("openapi3filter: NewValidator not found"))
 	} else {
 		params := map[string]bool{}
 		variadic := ""
@@ -639,9 +639,9 @@ func extractValidatorConfig(repo string) (string, error) {
 						switch v := kv.Value.(type) {
 						case *ast.Ident:
 							if params[v.Name] {
-								rows = append(rows, fmt.Sprintf(".dflt %s %s", q(field), q("param")))
+								rows = append(rows, fmt.Sprintf(".dflt %s %s", c14q(field), c14q("param")))
 							} else {
-								rows = append(rows, fmt.Sprintf(".dflt %s %s", q(field), q("value:"+v.Name)))
+								rows = append(rows, fmt.Sprintf(".dflt %s %s", c14q(field), c14q("value:"+v.Name)))
 							}
 						case *ast.FuncLit:
 							if len(v.Body.List) == 1 {
@@ -649,9 +649,9 @@ func extractValidatorConfig(repo string) (string, error) {
 									if call, ok := es.X.(*ast.CallExpr); ok {
 										fun := types.ExprString(call.Fun)
 										if fun == "http.Error" {
-											rows = append(rows, fmt.Sprintf(".dflt %s %s", q(field), q(types.ExprString(call))))
+											rows = append(rows, fmt.Sprintf(".dflt %s %s", c14q(field), c14q(types.ExprString(call))))
 										} else {
-											rows = append(rows, fmt.Sprintf(".dflt %s %s", q(field), q(fun)))
+											rows = append(rows, fmt.Sprintf(".dflt %s %s", c14q(field), c14q(fun)))
 										}
 										continue
 									}
@@ -659,7 +659,7 @@ func extractValidatorConfig(repo string) (string, error) {
 							}
 							unrec(v.Pos())
 						default:
-							rows = append(rows, fmt.Sprintf(".dflt %s %s", q(field), q("value:"+types.ExprString(kv.Value))))
+							rows = append(rows, fmt.Sprintf(".dflt %s %s", c14q(field), c14q("value:"+types.ExprString(kv.Value))))
 						}
 					}
 				} else {
@@ -720,7 +720,7 @@ func extractValidatorConfig(repo string) (string, error) {
 					unrec(call.Pos())
 					return true
 				}
-				rows = append(rows, fmt.Sprintf(".errCall %s %s %s %s", q("Middleware"), q(types.ExprString(call.Args[2])), q(types.ExprString(call.Args[3])), q(types.ExprString(call.Args[1]))))
+				rows = append(rows, fmt.Sprintf(".errCall %s %s %s %s", c14q("Middleware"), c14q(types.ExprString(call.Args[2])), c14q(types.ExprString(call.Args[3])), c14q(types.ExprString(call.Args[1]))))
 			case "logFunc":
 				if len(call.Args) != 3 {
 					unrec(call.Pos())
@@ -736,7 +736,7 @@ func extractValidatorConfig(repo string) (string, error) {
 					return true
 				}
 				txt, _ := strconv.Unquote(lit.Value)
-				rows = append(rows, fmt.Sprintf(".logCall %s %s", q("Middleware"), q(txt)))
+				rows = append(rows, fmt.Sprintf(".logCall %s %s", c14q("Middleware"), c14q(txt)))
 			}
 			return true
 		})
@@ -752,25 +752,25 @@ func extractValidatorState(repo string) (string, error) {
 		return "", err
 	}
 	var rows []string
-	unrec := func(pos token.Pos) { rows = append(rows, ".unrecognised "+q(p.site(pos))) }
+	unrec := func(pos token.Pos) { rows = append(rows, ".unrecognised "+c14q(p.site(pos))) }
 	entries := map[string][]string{"Validator": {"Middleware"}, "ValidationHandler": {"ServeHTTP", "Middleware"}}
 	var serving []*ast.FuncDecl // all function bodies whose package-variable references are listed
 	for _, ty := range []string{"Validator", "ValidationHandler"} {
 		st := p.structs[ty]
 		if st == nil {
-			rows = append(rows, ".unrecognised "+q("openapi3filter: type "+ty+" not found"))
+			rows = append(rows, ".unrecognised "+c14q("openapi3filter: type "+ty+" not found"))
 			continue
 		}
 		fields := map[string]bool{}
 		for _, f := range st.Fields.List {
 			t := types.ExprString(f.Type)
 			if len(f.Names) == 0 {
-				rows = append(rows, fmt.Sprintf(".field %s %s %s", q(ty), q("(embedded)"), q(t)))
+				rows = append(rows, fmt.Sprintf(".field %s %s %s", c14q(ty), c14q("(embedded)"), c14q(t)))
 				continue
 			}
 			for _, n := range f.Names {
 				fields[n.Name] = true
-				rows = append(rows, fmt.Sprintf(".field %s %s %s", q(ty), q(n.Name), q(t)))
+				rows = append(rows, fmt.Sprintf(".field %s %s %s", c14q(ty), c14q(n.Name), c14q(t)))
 			}
 		}
 		// serving methods: entries plus the receiver's methods they call, transitively
@@ -790,7 +790,7 @@ func extractValidatorState(repo string) (string, error) {
 				}
 			}
 			if m == nil || m.Body == nil {
-				rows = append(rows, ".unrecognised "+q("openapi3filter: method "+ty+"."+name+" not found"))
+				rows = append(rows, ".unrecognised "+c14q("openapi3filter: method "+ty+"."+name+" not found"))
 				continue
 			}
 			serving = append(serving, m)
@@ -805,7 +805,7 @@ func extractValidatorState(repo string) (string, error) {
 							}
 						}
 						// the receiver used as a value: the whole instance is handed on
-						rows = append(rows, fmt.Sprintf(".use %s %s %s %s", q(ty), q(name), q("(receiver)"), q("escape")))
+						rows = append(rows, fmt.Sprintf(".use %s %s %s %s", c14q(ty), c14q(name), c14q("(receiver)"), c14q("escape")))
 					}
 				case *ast.SelectorExpr:
 					id, ok := x.X.(*ast.Ident)
@@ -821,7 +821,7 @@ func extractValidatorState(repo string) (string, error) {
 						}
 						return
 					}
-					rows = append(rows, fmt.Sprintf(".use %s %s %s %s", q(ty), q(name), q(f), q(selUse(x, parents))))
+					rows = append(rows, fmt.Sprintf(".use %s %s %s %s", c14q(ty), c14q(name), c14q(f), c14q(selUse(x, parents))))
 				}
 			})
 		}
@@ -895,11 +895,11 @@ func extractValidatorState(repo string) (string, error) {
 				if ty == "" {
 					ty = "expr:" + types.ExprString(rhs)
 				}
-				rows = append(rows, fmt.Sprintf(".wrapper %s %s %s %s %s", q("Middleware"), q(cond), q(ty), leanBool(fresh), leanStrs(flds)))
+				rows = append(rows, fmt.Sprintf(".wrapper %s %s %s %s %s", c14q("Middleware"), c14q(cond), c14q(ty), leanBool(fresh), leanStrs(flds)))
 			}
 		})
 		if !found {
-			rows = append(rows, ".unrecognised "+q(p.site(m.Pos())+": no responseWrapper variable is assigned"))
+			rows = append(rows, ".unrecognised "+c14q(p.site(m.Pos())+": no responseWrapper variable is assigned"))
 		}
 	}
 	// package-level variables referenced by the serving code, the wrapper methods and constructors
@@ -936,7 +936,7 @@ func extractValidatorState(repo string) (string, error) {
 					return // a local or parameter shadowing the name
 				}
 			}
-			rows = append(rows, fmt.Sprintf(".pkgvar %s %s", q(name), q(id.Name)))
+			rows = append(rows, fmt.Sprintf(".pkgvar %s %s", c14q(name), c14q(id.Name)))
 		})
 	}
 	return c14Emit("ValidatorState", "SRow", "KinModel.MiddlewareSrc", rows), nil
@@ -1006,7 +1006,7 @@ func extractConvertStatus(repo string) (string, error) {
 						return // a local whose values are listed where they are assigned
 					}
 				}
-				rows = append(rows, fmt.Sprintf(".status %s %s", q(fd.Name.Name), q(types.ExprString(e))))
+				rows = append(rows, fmt.Sprintf(".status %s %s", c14q(fd.Name.Name), c14q(types.ExprString(e))))
 			}
 			ast.Inspect(fd.Body, func(n ast.Node) bool {
 				switch x := n.(type) {
@@ -1017,7 +1017,7 @@ func extractConvertStatus(repo string) (string, error) {
 						}
 						if id, ok := l.(*ast.Ident); ok && strings.EqualFold(id.Name, "status") {
 							locals[id.Name] = x.Rhs[i]
-							rows = append(rows, fmt.Sprintf(".status %s %s", q(fd.Name.Name), q(types.ExprString(x.Rhs[i]))))
+							rows = append(rows, fmt.Sprintf(".status %s %s", c14q(fd.Name.Name), c14q(types.ExprString(x.Rhs[i]))))
 						}
 						if sel, ok := l.(*ast.SelectorExpr); ok && sel.Sel.Name == "Status" {
 							emit(x.Rhs[i])
@@ -1037,7 +1037,7 @@ func extractConvertStatus(repo string) (string, error) {
 		}
 	}
 	if len(rows) == 0 {
-		rows = append(rows, ".unrecognised "+q("openapi3filter/validation_error_encoder.go: no status found"))
+		rows = append(rows, ".unrecognised "+c14q("openapi3filter/validation_error_encoder.go: no status found"))
 	}
 	return c14Emit("ConvertStatus", "KRow", "KinModel.MiddlewareSrc", rows), nil
 }
